@@ -136,6 +136,38 @@ theorem iwp_cov_recursion [CharZero K] (hξ0 : Orthonormal c ξ0) (hξ1 : Orthon
   · simp only [c.add_left, c.add_right, c.symm (N1 k) (Vp k), vn1, q22]
     ring
 
+/-- **iwp_cross_cov** (cross-time covariance `Cov(z_j, z_i) = F(t_j − t_i) P(t_i)` for `i ≤ j`, any grid, any time-varying
+    parameters): with `Δ = Σ_{i ≤ k < j} dt_k`
+    `Cov(V_j,V_i) = P₂₂(i)`, `Cov(V_j,X_i) = P₁₂(i)`, `Cov(X_j,V_i) = P₁₂(i) + Δ·P₂₂(i)`, `Cov(X_j,X_i) = P₁₁(i) + Δ·P₁₂(i)` -/
+theorem iwp_cross_cov (hξ0 : Orthonormal c ξ0) (hξ1 : Orthonormal c ξ1)
+    (hξ01 : ∀ k l, c.B (ξ0 k) (ξ1 l) = 0)
+    (h0 : ∀ l, c.B x0x (ξ0 l) = 0 ∧ c.B x0x (ξ1 l) = 0 ∧ c.B x0v (ξ0 l) = 0 ∧ c.B x0v (ξ1 l) = 0)
+    (i j : Nat) (hij : i ≤ j) :
+    c.B (Vp j) (Vp i) = c.B (Vp i) (Vp i) ∧ c.B (Vp j) (Xp i) = c.B (Xp i) (Vp i)
+    ∧ c.B (Xp j) (Vp i) = c.B (Xp i) (Vp i) + (∑ k ∈ Ico i j, dt k) * c.B (Vp i) (Vp i)
+    ∧ c.B (Xp j) (Xp i) = c.B (Xp i) (Xp i) + (∑ k ∈ Ico i j, dt k) * c.B (Xp i) (Vp i) := by
+  induction j, hij using Nat.le_induction with
+  | base => simp [c.symm (Vp i) (Xp i)]
+  | succ j hij ih =>
+    obtain ⟨a1, a2, a3, a4⟩ := ih
+    obtain ⟨i1, i2, i3, i4⟩ := iwp_state_indep c sqrt σ dt asp ξ0 ξ1 x0x x0v hξ0 hξ1 hξ01 h0 i j hij
+    -- the noise of step j is uncorrelated with the state at i ≤ j
+    have n0x : c.B (N0 j) (Xp i) = 0 := by
+      rw [c.symm]; simp only [iwpN0, iwpN1, c.add_right, c.smul_right, i1, i2]; simp
+    have n0v : c.B (N0 j) (Vp i) = 0 := by
+      rw [c.symm]; simp only [iwpN0, iwpN1, c.add_right, c.smul_right, i3, i4]; simp
+    have n1x : c.B (N1 j) (Xp i) = 0 := by
+      rw [c.symm]; simp only [iwpN1, c.smul_right, i2]; simp
+    have n1v : c.B (N1 j) (Vp i) = 0 := by
+      rw [c.symm]; simp only [iwpN1, c.smul_right, i4]; simp
+    obtain ⟨tx, tv⟩ := iwp_transition sqrt σ dt asp ξ0 ξ1 x0x x0v j
+    rw [tx, tv, sum_Ico_succ_top hij]
+    refine ⟨?_, ?_, ?_, ?_⟩
+    · rw [c.add_left, a1, n1v, add_zero]
+    · rw [c.add_left, a2, n1x, add_zero]
+    · rw [c.add_left, c.add_left, c.smul_left, a3, a1, n0v]; ring
+    · rw [c.add_left, c.add_left, c.smul_left, a4, a2, n0x]; ring
+
 end iwp
 
 /-- **iwp_cov_closed_form**: constant `σ`, asperity `a`, deterministic start: at grid time `t = Σ_{k'<k} dt_k'`
